@@ -42,12 +42,12 @@ type base struct {
 	rebuild func(m *pdfw.Mutation, rev int) []byte // PDF bases: the same file written with one semantic fault
 	objStmN [][]int
 	xrefCnt []int
-	id     string
-	kind   string
-	ext    string
-	data   []byte
-	fields []pdfw.Field
-	desc   string
+	id      string
+	kind    string
+	ext     string
+	data    []byte
+	fields  []pdfw.Field
+	desc    string
 }
 
 func splice(b []byte, start, end int, repl []byte) []byte {
@@ -466,8 +466,8 @@ func zipSingleFaults(b *base, emit func(desc string, data []byte)) {
 		// reference cycles between named definitions (style inheritance and the like):
 		// a definition that names itself, and a two-element cycle
 		for _, rc := range []struct{ open, idAttr, refElem, refAttr string }{
-			{"<w:style ", "w:styleId", "w:basedOn", ""},     // DOCX styles: <w:basedOn w:val="ID"/>
-			{"<w:style ", "w:styleId", "w:link", ""},        // linked styles
+			{"<w:style ", "w:styleId", "w:basedOn", ""}, // DOCX styles: <w:basedOn w:val="ID"/>
+			{"<w:style ", "w:styleId", "w:link", ""},    // linked styles
 			{"<w:abstractNum ", "w:abstractNumId", "w:numStyleLink", ""},
 			{"<style:style ", "style:name", "", "style:parent-style-name"}, // ODF: attribute on the element itself
 			{"<text:list-style ", "style:name", "", "style:parent-style-name"},
